@@ -255,7 +255,7 @@ std::string gen_desc_text(Rng& r, bool fa_only, bool fancy, bool* parens) {
 	std::set<std::string> usedsym;
 	for (int i = 0; i < nsym; ++i) { std::string n; do { n = fancy ? rand_name(r, true) : std::string(1, char('a' + r.below(6))); } while (!usedsym.insert(n).second); sy.push_back(mdl::Sym(n, fa_only ? int(r.below(2)) : int(r.below(4)))); }
 	if (fa_only) { bool has0 = false; for (auto& y : sy) if (y.second == 0) has0 = true; if (!has0) sy[0].second = 0; }
-	for (auto& y : sy) d.ops.insert(y);
+	for (auto& y : sy) d.ops.insert(r.chance(1, 6) ? mdl::Sym(y.first, -1) : y);      // some symbols are declared without a rank (legal; the parser records rank -1)
 	for (auto& q : st) { d.states.insert(q); if (r.chance(1, 3)) d.finals.insert(q); }
 	int nt = st.empty() ? 0 : r.range(0, 8);
 	std::set<std::string> started;
